@@ -78,7 +78,10 @@ def run(model, col, tier):
     ainit = am.own_method("__init__")
     ival = [n.value for n in ast.walk(ainit) if isinstance(n, ast.Assign) and isinstance(n.targets[0], ast.Attribute) and fld and n.targets[0].attr == fld[0]]
     is_set = bool(ival) and all(isinstance(v, ast.Set) or (isinstance(v, ast.Call) and dotted(v.func) in ("set", "frozenset")) for v in ival)
-    ctm0 = model.cls(CT, "ComputeTypeVisitor").own_method("v_Module")
+    from ..sem import expand_helpers as _xh161
+
+    ctm0 = _xh161(model, model.cls(CT, "ComputeTypeVisitor"), model.cls(CT, "ComputeTypeVisitor").own_method("v_Module"),
+                  skip=("v_", "__RegisterFunction", "_ComputeTypeVisitor__RegisterFunction"))
     imp0 = [x for x in ast.walk(ctm0) if isinstance(x, ast.For) and "GetImports" in unparse(x.iter)]
     dedup = bool(imp0) and any(unparse(imp0[0].iter).startswith(p) for p in ("set(", "sorted(set(", "dict.fromkeys(", "frozenset("))
     col.check(is_set or dedup, "R16.1", f"{ASTF}::Module imports are a set", "an import statement repeated in a module is loaded once",
@@ -253,7 +256,7 @@ def run(model, col, tier):
                               "preceded by a not-in test that rejects a duplicate", f"`{unparse(e.node)}` is not guarded by a not-in test: a second definition silently replaces the first", IR, e.node)
     col.floor("R16.4", "table insertions in AddModule", ins, 2)
     # ---------------- R16.5 -------------------------------------------------------
-    ctm = model.cls(CT, "ComputeTypeVisitor").own_method("v_Module")
+    ctm = ctm0  # v_Module of the type pass, private helpers read in place
     reads = {}
     from ..sem import local_env as _le165, resolve as _rs165
 
